@@ -4,20 +4,28 @@
 1. TLC, exhaustive: the REPAIRED design (every defect switch TRUE) satisfies Consistent,
    MemAgreesWithDisk, NextStoreSucceeds, StateReadsCorrect for every sequence of <= MaxOps operations
    over {store, revert, setL1, snapshot, prune, restart, query} x every durable mutation
-   {ok, fail, crash}, from an empty database and across a bloom-window boundary; the FAITHFUL model
-   (switches as probed on the real code) is expected to violate them iff a defect is still there.
+   {ok, fail, crash} - the mutations of the lazy running-filter initialisation an operation triggers
+   (delete of the loaded snapshot, put of a window completed while filling) included -, from an
+   empty database and across a bloom-window boundary; the FAITHFUL model (switches as probed on the
+   real code) is expected to violate them iff a defect is still there; the two mechanisms of the
+   initialisation (its delete error fails it; a failed initialisation is retried) switched off must
+   each violate them.
 2. Binding (a) conformance: TLC-simulated behaviours of the faithful model, faults included, are
    replayed on real nodes over the fault-injecting store; result kind, number of durable mutations
    and the projected durable state (after every single mutation of a prune) must equal the
    specification's.
 3. Binding (b) fault enumeration: fault-free TLC behaviours; for every durable mutation k of every
-   operation "fail at k" and "crash after k" are run, and Consistent / MemAgreesWithDisk /
-   NextStoreSucceeds are evaluated on the REAL node against an unfaulted twin.
+   operation (initialisation mutations first) "fail at k" and "crash after k" are run, and
+   Consistent / MemAgreesWithDisk / NextStoreSucceeds are evaluated on the REAL node against an
+   unfaulted twin, and once more on a fresh process over the store the sequence leaves behind.
+Both wirings of the initialiser are bound: pruner.InitializeRunningEventFilter (pruning node) and
+core.InitializeRunningEventFilter (archive node: behaviours of the model without the pruner).
 """
 import json
 import vlib
 
-SWITCHES = ["FixMemAfterCommit", "FixSnapshot", "FixReorgWindow", "FixPruneAtomicFloor", "FixCacheOnReorg"]
+SWITCHES = ["FixMemAfterCommit", "FixSnapshot", "FixReorgWindow", "FixPruneAtomicFloor", "FixCacheOnReorg",
+            "FixInitConsume", "FixInitRetry"]
 
 SCEN = {
     # from an empty database, no bloom-window boundary in reach
@@ -34,7 +42,8 @@ def tla_bool(b):
     return "TRUE" if b else "FALSE"
 
 
-def cfg_text(sc, switches, faults=True, max_ops=5, prune_batch=1, mbt=False, invariants=True, max_h=None, max_ver=None):
+def cfg_text(sc, switches, faults=True, max_ops=5, prune_batch=1, mbt=False, invariants=True, max_h=None, max_ver=None,
+             prune=True):
     c = dict(SCEN[sc])
     if max_h:
         c["MaxH"] = max_h
@@ -45,7 +54,7 @@ def cfg_text(sc, switches, faults=True, max_ops=5, prune_batch=1, mbt=False, inv
              "  InitH <- EmptyDB" if c["InitH"] < 0 else "  InitH = %d" % c["InitH"],
              "  Boundary = %d" % c["Boundary"], "  Genesis = %s" % tla_bool(c["Genesis"]),
              "  Lag = 10", "  PruneBatch = %d" % prune_batch,
-             "  EnableFaults = %s" % tla_bool(faults), "  EnablePrune = TRUE"]
+             "  EnableFaults = %s" % tla_bool(faults), "  EnablePrune = %s" % tla_bool(prune)]
     for s in SWITCHES:
         lines.append("  %s = %s" % (s, tla_bool(switches[s])))
     if mbt:
@@ -53,8 +62,8 @@ def cfg_text(sc, switches, faults=True, max_ops=5, prune_batch=1, mbt=False, inv
     else:
         lines += ["INIT Init", "NEXT Next", "VIEW view"]
         if invariants:
-            lines += ["INVARIANTS TypeOK Consistent MemAgreesWithDisk NextStoreSucceeds StateReadsCorrect",
-                      "PROPERTIES FailedWriteAppliesNothing RestartIsNoOp"]
+            lines += ["INVARIANTS InitMutsBounded TypeOK Consistent MemAgreesWithDisk NextStoreSucceeds StateReadsCorrect",
+                      "PROPERTIES FailedInitIsRetried FailedWriteAppliesNothing RestartIsNoOp"]
     lines.append("CHECK_DEADLOCK FALSE")
     return "\n".join(lines) + "\n", c
 
@@ -66,6 +75,9 @@ DEFECT_KEYS = {
     "FixReorgWindow": "event-filter:stale-window-after-reorg-across-boundary:store-fails-after-restart",
     "FixPruneAtomicFloor": "prune-crash:floor-reseed-below-deleted-history",
     "FixCacheOnReorg": "bloom-cache:stale-window-after-reorg-across-boundary",
+    # mechanisms of the lazy initialisation (TRUE = the code as it is)
+    "FixInitConsume": "event-filter:init-delete-error-ignored:stale-snapshot-reused-after-restart",
+    "FixInitRetry": "event-filter:failed-init-latched:store-fails-until-restart",
 }
 
 
@@ -128,10 +140,17 @@ def run(ctx):
     def self_checks():
         """Vacuity and model self-checks; run AFTER the engines so that they cannot turn a violation
         observed on the code into exit 2."""
+        # the two mechanisms of the lazy initialisation, switched off one at a time, must violate
+        for cfg in ("Crash_self_initconsume.cfg", "Crash_self_initretry.cfg"):
+            r = ctx.tlc_check("chain", "MCCrash.tla", cfg, timeout=600, expect_violation=True,
+                              label="self-check %s (expected to violate)" % cfg)
+            if r["ok"]:
+                raise vlib.Broken("%s: the model without this mechanism of the lazy filter initialisation satisfies every "
+                                  "property, i.e. faults in the initialisation's own mutations are not explored" % cfg)
         if thorough:
             for wname in ("NeverStore", "NeverRevert", "NeverSetL1", "NeverSnapshot", "NeverPrune", "NeverPruneStep",
                           "NeverRestart", "NeverQuery", "NeverInitPut", "NeverFailedWrite", "NeverCrashedMidPrune",
-                          "NeverCrossedBack"):
+                          "NeverCrossedBack", "NeverInitFailed", "NeverInitCrashed", "NeverInitFailedInQuery"):
                 txt, _ = cfg_text("hi", repaired, max_ops=6, invariants=False)
                 # no VIEW here: the witnesses speak about act/res, which the view hides
                 txt = txt.replace("VIEW view\n", "").replace("CHECK_DEADLOCK FALSE", "INVARIANTS %s\nCHECK_DEADLOCK FALSE" % wname)
@@ -190,6 +209,35 @@ def run(ctx):
                               "pruneBatch": pb, "plain": False, "switches": faithful}, timeout=3000)
                 ctx.absorb(res, "crash", "TestCrashEnum")
                 vlib.log("engine TestCrashEnum %s pb=%d %s: %d sequences, %.0fs" % (sc, pb, be, len(part), res["_wall_s"]))
+    # ---- archive-node wiring (core.InitializeRunningEventFilter): behaviours of the model without the
+    # pruner (its weight goes to graceful stops, so that lazy initialisations with a snapshot to
+    # consume - and faults in exactly that mutation - are frequent), from genesis
+    n_arch = {"mid": (120, 15)} if thorough else {"mid": (30, 2)}
+    arch_state = [False, True] if thorough else [False]
+    for i, (sc, (nc, ne)) in enumerate(n_arch.items()):
+        txt, c = cfg_text(sc, faithful, faults=True, mbt=True, prune=False)
+        bs = ctx.tlc_simulate("chain", "CrashMBT.tla", "sim_arch.cfg", depth=16 * nc, seed=ctx.seed * 100 + 70 + i,
+                              files={"sim_arch.cfg": txt}, timeout=900, max_behaviours=nc)
+        total_conf += len(bs)
+        ninit = sum(1 for b in bs for st in b if st["res"].get("init"))
+        ctx.coverage["archive_init_fault_steps"] = ctx.coverage.get("archive_init_fault_steps", 0) + ninit
+        for be in (["memory", "pebble"] if thorough else ["memory"]):
+            part = bs if be == "memory" else bs[:40]
+            res = engine(ctx, binary, "TestCrashConform",
+                         {"consts": c, "behaviours": part, "newState": arch_state, "backends": [be],
+                          "pruneBatch": 1, "plain": True}, timeout=3000)
+            ctx.absorb(res, "crash", "TestCrashConform")
+            vlib.log("engine TestCrashConform %s archive wiring %s: %d behaviours (%d steps with a fault inside the lazy "
+                     "initialisation), %.0fs" % (sc, be, len(part), ninit, res["_wall_s"]))
+        txt, c = cfg_text(sc, faithful, faults=False, mbt=True, prune=False)
+        bs = ctx.tlc_simulate("chain", "CrashMBT.tla", "ops_arch.cfg", depth=12 * ne, seed=ctx.seed * 100 + 80 + i,
+                              files={"ops_arch.cfg": txt}, timeout=900, max_behaviours=ne)
+        total_enum += len(bs)
+        res = engine(ctx, binary, "TestCrashEnum",
+                     {"consts": c, "behaviours": bs, "newState": arch_state, "backends": ["memory"],
+                      "pruneBatch": 1, "plain": True, "switches": faithful}, timeout=3000)
+        ctx.absorb(res, "crash", "TestCrashEnum")
+        vlib.log("engine TestCrashEnum %s archive wiring: %d sequences, %.0fs" % (sc, len(bs), res["_wall_s"]))
     res = engine(ctx, binary, "TestCrashConcurrent", {"newState": [False, True]}, timeout=1500)
     for line in res.get("stats", {}).pop("observation_lines", None) or []:
         print("OBSERVATION: property=%s %s" % (ctx.prop, line), flush=True)
@@ -207,13 +255,15 @@ def run(ctx):
     ctx.assumptions += [
         "a single Batch.Write / Put is atomic and durable (C15 examines the backends)",
         "operations are sequential: no Store concurrent with a running prune",
-        "a fault in the rare durable put issued by the lazy running-filter initialisation itself is not injected",
         "bloom-window boundary scenarios run on the memory backend (base image of 8190 real blocks)",
     ]
     return ctx.finish(
         "model_checking",
-        "exhaustive TLC on Crash.tla (repaired design; <= MaxOps operations x every durable mutation x {ok,fail,crash}; "
+        "exhaustive TLC on Crash.tla (repaired design; <= MaxOps operations x every durable mutation x {ok,fail,crash}, "
+        "the mutations of the lazy running-filter initialisation an operation triggers included; "
         "empty database and across a bloom-window boundary) + TLC-simulated behaviours of the faithful model replayed "
-        "on real nodes (conformance after every step and after every mutation of a prune) + every fail/crash point of "
+        "on real nodes (conformance after every step and after every mutation of a prune; pruning and archive wiring of "
+        "the filter initialiser) + every fail/crash point of "
         "fault-free TLC behaviours enumerated on real nodes with Consistent/MemAgreesWithDisk/NextStoreSucceeds evaluated "
-        "against an unfaulted twin; a case is non-trivial when it performs at least one durable mutation")
+        "against an unfaulted twin, on the live process and on a fresh process over the surviving store; "
+        "a case is non-trivial when it performs at least one durable mutation")
